@@ -82,7 +82,8 @@ Definition touches (s : step) (p : path) : bool :=
   | SWriteMeta o => path_eqb p (PFile o FMeta)
   | SVerify _ => false
   | SCompBegin o => path_eqb p (PFile o FTmp)
-  | SCompEnd o => path_eqb p (PFile o FTmp) || path_eqb p (PFile o FCh)
+  | SCompEnd o => path_eqb p (PFile o FTmp) || path_eqb p (PFile o FChTmp)
+  | SRenameCh o => path_eqb p (PFile o FChTmp) || path_eqb p (PFile o FCh)
   | SRename o => path_eqb p (PFile o FTmp) || path_eqb p (PFile o FCbin)
   | SDeleteOrig f => path_eqb p (PFile Orig f)
   end.
@@ -111,6 +112,8 @@ Proof.
   - eapply unlink_frame; eauto.
   - destruct (present _ _); inversion H; subst; cbn. unfold upd. rewrite Ht. reflexivity.
   - apply orb_false_iff in Ht as [H1 H2]. inversion H; subst; cbn. unfold upd. rewrite H1, H2. reflexivity.
+  - apply orb_false_iff in Ht as [H1 H2]. destruct (present _ _); inversion H; subst; cbn.
+    unfold upd. rewrite H1, H2. reflexivity.
   - apply orb_false_iff in Ht as [H1 H2]. destruct (present _ _); inversion H; subst; cbn.
     unfold upd. rewrite H1, H2. reflexivity.
   - destruct (r_checked rs); [eapply unlink_frame; eauto | inversion H; subst; reflexivity].
@@ -226,7 +229,8 @@ Definition shank_step (s : step) : bool :=
   | SMkdir _ | SAppendSh _ _ _ | SVerify _ => true
   | STrunc (PFile (Shank _ _) _) | SCorrupt (PFile (Shank _ _) _)
   | SUnlink (PFile (Shank _ _) _) _ => true
-  | SWriteMeta (Shank _ _) | SCompBegin (Shank _ _) | SCompEnd (Shank _ _) | SRename (Shank _ _) => true
+  | SWriteMeta (Shank _ _) | SCompBegin (Shank _ _) | SCompEnd (Shank _ _) | SRename (Shank _ _)
+  | SRenameCh (Shank _ _) => true
   | _ => false
   end.
 
@@ -287,8 +291,12 @@ Lemma sem_compbegin : forall o rs, r_fs rs (PFile o FBin) <> Absent ->
 Proof. intros o rs H. cbn. apply present_true in H. rewrite H. reflexivity. Qed.
 Lemma sem_compend : forall o rs, r_fs rs (PFile o FBin) = Complete ->
   step_sem (SCompEnd o) rs =
-  Ok (mkR (upd (upd (r_fs rs) (PFile o FTmp) Complete) (PFile o FCh) Complete) (r_checked rs)).
+  Ok (mkR (upd (upd (r_fs rs) (PFile o FTmp) Complete) (PFile o FChTmp) Complete) (r_checked rs)).
 Proof. intros o rs H. cbn. apply complete_true in H. rewrite H. reflexivity. Qed.
+Lemma sem_renamech : forall o rs, r_fs rs (PFile o FChTmp) <> Absent ->
+  step_sem (SRenameCh o) rs =
+  Ok (mkR (upd (upd (r_fs rs) (PFile o FCh) (r_fs rs (PFile o FChTmp))) (PFile o FChTmp) Absent) (r_checked rs)).
+Proof. intros o rs H. cbn. apply present_true in H. rewrite H. reflexivity. Qed.
 Lemma sem_rename : forall o rs, r_fs rs (PFile o FTmp) <> Absent ->
   step_sem (SRename o) rs =
   Ok (mkR (upd (upd (r_fs rs) (PFile o FCbin) (r_fs rs (PFile o FTmp))) (PFile o FTmp) Absent) (r_checked rs)).
@@ -305,15 +313,16 @@ Proof.
 Qed.
 
 Definition comp_core (o : owner) : list step :=
-  [SCompBegin o; SCompEnd o; SRename o; SUnlink (PFile o FBin) false].
+  [SCompBegin o; SCompEnd o; SRenameCh o; SRename o; SUnlink (PFile o FBin) false].
 
-(* from a complete .bin the four core steps always succeed and leave .cbin + .ch *)
+(* from a complete .bin the five core steps always succeed and leave .cbin + .ch *)
 Lemma comp_core_run : forall o rs, r_fs rs (PFile o FBin) = Complete ->
   exists rs', exec (comp_core o) rs = (rs', None) /\ r_checked rs' = r_checked rs /\   r_fs rs' (PFile o FCbin) = Complete /\ r_fs rs' (PFile o FCh) = Complete /\   r_fs rs' (PFile o FBin) = Absent /\ r_fs rs' (PFile o FTmp) = Absent /\   forall q, (forall f, q <> PFile o f) -> r_fs rs' q = r_fs rs q.
 Proof.
   intros o rs Hb. unfold comp_core. cbn [exec].
   rewrite sem_compbegin by (rewrite Hb; discriminate).
   rewrite sem_compend by (cbn; upd_simp; exact Hb).
+  rewrite sem_renamech by (cbn; upd_simp; discriminate).
   rewrite sem_rename by (cbn; upd_simp; discriminate).
   rewrite sem_unlink_present by (cbn; upd_simp; rewrite Hb; discriminate).
   eexists; split; [reflexivity|]. cbn. upd_simp. repeat split; auto.
@@ -324,7 +333,7 @@ Lemma comp_steps_run : forall ow o rs, r_fs rs (PFile o FBin) = Complete ->
   exists rs', exec (comp_steps ow o) rs = (rs', None) /\ r_checked rs' = r_checked rs /\   r_fs rs' (PFile o FCbin) = Complete /\ r_fs rs' (PFile o FCh) = Complete /\   r_fs rs' (PFile o FBin) = Absent /\ r_fs rs' (PFile o FTmp) = Absent /\   forall q, (forall f, q <> PFile o f) -> r_fs rs' q = r_fs rs q.
 Proof.
   intros ow o rs Hb. unfold comp_steps.
-  change [SCompBegin o; SCompEnd o; SRename o; SUnlink (PFile o FBin) false] with (comp_core o).
+  change [SCompBegin o; SCompEnd o; SRenameCh o; SRename o; SUnlink (PFile o FBin) false] with (comp_core o).
   destruct ow; cbn [app].
   - destruct (sem_unlink_mok (PFile o FCbin) rs) as [rs1 [Hs [Hc [_ Hf]]]].
     destruct (comp_core_run o rs1) as [rs' [Hx [Hc' [H1 [H2 [H3 [H4 H5]]]]]]].
@@ -594,7 +603,7 @@ Definition lf21_step (s : step) : bool :=
   match s with
   | SAppend21 _ => true
   | STrunc (PFile Lf21 _) | SUnlink (PFile Lf21 _) _ => true
-  | SWriteMeta Lf21 | SCompBegin Lf21 | SCompEnd Lf21 | SRename Lf21 => true
+  | SWriteMeta Lf21 | SCompBegin Lf21 | SCompEnd Lf21 | SRename Lf21 | SRenameCh Lf21 => true
   | _ => false
   end.
 Lemma lf21_step_orig : forall s f, lf21_step s = true -> touches s (PFile Orig f) = false.
@@ -633,7 +642,7 @@ Lemma comp_core_orig_prefix : forall k rs rs',
   orig21_ok (r_fs rs') /\ r_fs rs' (PFile Orig FMeta) = r_fs rs (PFile Orig FMeta).
 Proof.
   intros k rs rs' Hb H. unfold comp_core in H.
-  destruct k as [|[|[|[|k]]]]; cbn [firstn exec] in H.
+  destruct k as [|[|[|[|[|k]]]]]; cbn [firstn exec] in H.
   - inversion H; subst. split; [left; exact Hb | reflexivity].
   - rewrite sem_compbegin in H by (rewrite Hb; discriminate). inversion H; subst; cbn.
     unfold orig21_ok. upd_simp. auto.
@@ -642,11 +651,17 @@ Proof.
     unfold orig21_ok. upd_simp. auto.
   - rewrite sem_compbegin in H by (rewrite Hb; discriminate).
     rewrite sem_compend in H by (cbn; upd_simp; exact Hb).
+    rewrite sem_renamech in H by (cbn; upd_simp; discriminate). inversion H; subst; cbn.
+    unfold orig21_ok. upd_simp. auto.
+  - rewrite sem_compbegin in H by (rewrite Hb; discriminate).
+    rewrite sem_compend in H by (cbn; upd_simp; exact Hb).
+    rewrite sem_renamech in H by (cbn; upd_simp; discriminate).
     rewrite sem_rename in H by (cbn; upd_simp; discriminate). inversion H; subst; cbn.
     unfold orig21_ok. upd_simp. auto.
   - rewrite firstn_nil in H.
     rewrite sem_compbegin in H by (rewrite Hb; discriminate).
     rewrite sem_compend in H by (cbn; upd_simp; exact Hb).
+    rewrite sem_renamech in H by (cbn; upd_simp; discriminate).
     rewrite sem_rename in H by (cbn; upd_simp; discriminate).
     rewrite sem_unlink_present in H by (cbn; upd_simp; rewrite Hb; discriminate).
     inversion H; subst; cbn. unfold orig21_ok. upd_simp. split; [right; auto | reflexivity].
@@ -911,4 +926,350 @@ Proof.
     - intros s Hs. apply nodir_step_dir. pose proof (rest24_nodir n w (r_opts r) (r_ow r) (r_corrupt r) tf) as Hf.
       rewrite forallb_forall in Hf. auto. }
   destruct Ht as [Ht|Ht]; rewrite Ht in *; apply G; exact H.
+Qed.
+
+(* ====================================================================== *)
+(* Forced re-run: from ANY directory in which the input exists, a fault-free *)
+(* overwrite=True run completes with a full set of valid outputs             *)
+(* ====================================================================== *)
+Lemma prep_one_true_run : forall fs0 k rs,
+  exec (prep_one true fs0 k) rs =
+  (mkR (upd (upd (upd (r_fs rs) (PDir k) Complete) (PFile (Shank k Ap) FBin) Partial)
+            (PFile (Shank k Lf) FBin) Partial) (r_checked rs), None).
+Proof.
+  intros. unfold prep_one. rewrite orb_true_r.
+  repeat (cbn [exec step_sem dir_ok r_fs r_checked]; unfold present; upd_simp; cbn [fstate_eqb negb]).
+  reflexivity.
+Qed.
+
+Lemma prep_list_run : forall fs0 ks rs, exists rs',
+  exec (flat_map (prep_one true fs0) ks) rs = (rs', None) /\ r_checked rs' = r_checked rs /\
+  (forall q, r_fs rs q <> Absent -> r_fs rs' q <> Absent) /\
+  (forall k, In k ks -> r_fs rs' (PFile (Shank k Ap) FBin) <> Absent /\
+                        r_fs rs' (PFile (Shank k Lf) FBin) <> Absent).
+Proof.
+  intros fs0. induction ks as [|k ks IH]; intros rs.
+  - exists rs. cbn. repeat split; auto; intros ? [].
+  - cbn [flat_map]. rewrite exec_app, prep_one_true_run.
+    destruct (IH (mkR (upd (upd (upd (r_fs rs) (PDir k) Complete) (PFile (Shank k Ap) FBin) Partial)
+                           (PFile (Shank k Lf) FBin) Partial) (r_checked rs))) as [rs' [Hx [Hc [Hm Hk]]]].
+    exists rs'. split; [exact Hx|]. split; [exact Hc|]. split.
+    + intros q Hq. apply Hm. cbn. unfold upd.
+      repeat (destruct (path_eqb _ _); [discriminate|]). exact Hq.
+    + intros k' [->|Hin]; [|apply Hk; exact Hin].
+      split; apply Hm; cbn; upd_simp; discriminate.
+Qed.
+
+Definition is_append (s : step) : bool := match s with SAppendSh _ _ _ => true | _ => false end.
+Lemma appends_run : forall l rs, forallb is_append l = true ->
+  exists rs', exec l rs = (rs', None) /\ r_checked rs' = r_checked rs.
+Proof.
+  induction l as [|s l IH]; intros rs H; [exists rs; auto|].
+  cbn in H. apply andb_true_iff in H as [Hs Hl]. destruct s; try discriminate.
+  cbn [exec step_sem]. destruct (IH (mkR (fun q => match q with
+        | PFile (Shank k e') FBin => if (k <? n)%nat && etype_eqb e e' then (if last then Complete else Partial)
+                                     else r_fs rs q
+        | _ => r_fs rs q end) (r_checked rs)) Hl) as [rs' [Hx Hc]].
+  exists rs'. split; [exact Hx | exact Hc].
+Qed.
+
+Lemma wins24_run : forall n w' rs, exists rs',
+  exec (wins24 n (S w')) rs = (rs', None) /\ r_checked rs' = r_checked rs /\
+  forall k, (k < n)%nat -> r_fs rs' (PFile (Shank k Ap) FBin) = Complete /\
+                           r_fs rs' (PFile (Shank k Lf) FBin) = Complete.
+Proof.
+  intros n w' rs. unfold wins24.
+  destruct (appends_run (flat_map (fun _ : nat => [SAppendSh n Ap false; SAppendSh n Lf false]) (seq 0 w')) rs)
+    as [rs1 [H1 Hc1]].
+  { apply forallb_flat_map. reflexivity. }
+  rewrite exec_app, H1. cbn [exec step_sem r_fs r_checked].
+  eexists. split; [reflexivity|]. split; [exact Hc1|]. intros k Hk. cbn [r_fs etype_eqb].
+  apply Nat.ltb_lt in Hk. rewrite Hk. cbn. auto.
+Qed.
+
+Lemma metas_list_run : forall e ks rs,
+  (forall k, In k ks -> r_fs rs (PFile (Shank k e) FBin) <> Absent) ->
+  exists rs', exec (flat_map (fun k => [SWriteMeta (Shank k e)]) ks) rs = (rs', None) /\
+    (forall q, (forall o, q <> PFile o FMeta) -> r_fs rs' q = r_fs rs q).
+Proof.
+  intros e. induction ks as [|k ks IH]; intros rs Hb.
+  - exists rs. cbn. auto.
+  - cbn [flat_map app exec step_sem]. rewrite (proj2 (present_true _ _) (Hb k (or_introl eq_refl))).
+    destruct (IH (mkR (upd (r_fs rs) (PFile (Shank k e) FMeta) Complete) (r_checked rs))) as [rs' [Hx Hf]].
+    { intros k' Hk'. cbn. upd_simp. apply Hb. right; exact Hk'. }
+    exists rs'. split; [exact Hx|]. intros q Hq. rewrite Hf by exact Hq. cbn. upd_simp. reflexivity.
+Qed.
+
+Definition out_ok (comp : bool) (fs : fsys) (o : owner) : Prop :=
+  if comp then fs (PFile o FCbin) = Complete /\ fs (PFile o FCh) = Complete /\ fs (PFile o FBin) = Absent
+          /\ fs (PFile o FTmp) = Absent
+  else fs (PFile o FBin) = Complete.
+
+Lemma compk_run : forall ow k rs,
+  r_fs rs (PFile (Shank k Ap) FBin) = Complete -> r_fs rs (PFile (Shank k Lf) FBin) = Complete ->
+  exists rs', exec (compk ow k) rs = (rs', None) /\ r_checked rs' = r_checked rs /\
+    out_ok true (r_fs rs') (Shank k Ap) /\ out_ok true (r_fs rs') (Shank k Lf) /\
+    forall q, (forall e f, q <> PFile (Shank k e) f) -> r_fs rs' q = r_fs rs q.
+Proof.
+  intros ow k rs Ha Hl. unfold compk.
+  destruct (comp_steps_run ow (Shank k Ap) rs Ha) as [rs1 [H1 [Hc1 [A1 [A2 [A3 [A4 Hf1]]]]]]].
+  destruct (comp_steps_run ow (Shank k Lf) rs1) as [rs2 [H2 [Hc2 [B1 [B2 [B3 [B4 Hf2]]]]]]].
+  { rewrite Hf1 by congruence. exact Hl. }
+  exists rs2. rewrite exec_app, H1. split; [exact H2|]. split; [congruence|].
+  unfold out_ok. repeat split; auto; try (rewrite Hf2 by congruence; assumption).
+  intros q Hq. rewrite Hf2 by (intros f; apply Hq). apply Hf1. intros f; apply Hq.
+Qed.
+
+Lemma comp_list_run : forall ow ks rs, NoDup ks ->
+  (forall k, In k ks -> r_fs rs (PFile (Shank k Ap) FBin) = Complete /\
+                        r_fs rs (PFile (Shank k Lf) FBin) = Complete) ->
+  exists rs', exec (flat_map (compk ow) ks) rs = (rs', None) /\ r_checked rs' = r_checked rs /\
+    (forall k, In k ks -> out_ok true (r_fs rs') (Shank k Ap) /\ out_ok true (r_fs rs') (Shank k Lf)) /\
+    (forall q, (forall k e f, In k ks -> q <> PFile (Shank k e) f) -> r_fs rs' q = r_fs rs q).
+Proof.
+  intros ow. induction ks as [|k ks IH]; intros rs Hnd Hb.
+  - exists rs. split; [reflexivity|]. split; [reflexivity|]. split; [intros ? [] | reflexivity].
+  - inversion Hnd as [|k0 ks0 Hnotin Hnd']; subst.
+    destruct (compk_run ow k rs) as [rs1 [H1 [Hc1 [Oa [Ol Hf1]]]]]; try (apply Hb; left; reflexivity).
+    destruct (IH rs1 Hnd') as [rs2 [Hx [Hc2 [Hk Hf2]]]].
+    { intros k' Hk'. rewrite !Hf1 by (intros e f Heq; inversion Heq; subst; contradiction).
+      apply Hb. right; exact Hk'. }
+    exists rs2. cbn [flat_map]. rewrite exec_app, H1. split; [exact Hx|]. split; [congruence|]. split.
+    + intros k' [->|Hin]; [|apply Hk; exact Hin].
+      unfold out_ok in *. destruct Oa as [a1 [a2 [a3 a4]]]. destruct Ol as [l1 [l2 [l3 l4]]].
+      repeat split; (rewrite Hf2; [assumption|]);
+        intros k'' e f Hin Heq; inversion Heq; subst; contradiction.
+    + intros q Hq. rewrite Hf2 by (intros k' e f Hin; apply Hq; right; exact Hin).
+      apply Hf1. intros e f. apply Hq. left; reflexivity.
+Qed.
+
+Lemma already24_true_ow : forall fs n, already24 true fs n = false.
+Proof.
+  intros. unfold already24. rewrite <- not_true_iff_false. rewrite existsb_exists.
+  intros [k [_ H]]. rewrite andb_false_r in H. discriminate.
+Qed.
+
+Lemma all_ap_complete_intro : forall fs n,
+  (forall k, (k < n)%nat -> fs (PFile (Shank k Ap) FBin) = Complete) -> all_ap_complete fs n = true.
+Proof.
+  intros fs n H. unfold all_ap_complete. apply forallb_forall. intros k Hk. apply in_seq in Hk.
+  apply complete_true. apply H. lia.
+Qed.
+
+Definition final24_ok (n : nat) (o : opts) (fs : fsys) : Prop :=
+  forall k, (k < n)%nat ->
+    fs (PDir k) = Complete /\
+    fs (PFile (Shank k Ap) FMeta) = Complete /\ fs (PFile (Shank k Lf) FMeta) = Complete /\
+    out_ok (o_comp o) fs (Shank k Ap) /\ out_ok (o_comp o) fs (Shank k Lf).
+
+Lemma forced24_exec : forall n w' o tf fs,
+  fs (PFile Orig tf) <> Absent ->
+  exists rs', exec (plan24 n (S w') o true None tf fs) (mkR fs false) = (rs', None) /\
+    r_checked rs' = o_post o /\ final24_ok n o (r_fs rs') /\
+    r_fs rs' (PFile Orig tf) = (if o_post o && o_del o then Absent else fs (PFile Orig tf)) /\
+    forall f, f <> tf -> r_fs rs' (PFile Orig f) = fs (PFile Orig f).
+Proof.
+  intros n w' o tf fs Hin. unfold plan24. rewrite already24_true_ow.
+  destruct (prep_list_run fs (seq 0 n) (mkR fs false)) as [rs1 [E1 [C1 [M1 K1]]]].
+  destruct (prep_list_dirs _ _ _ _ _ E1) as [_ D1].
+  destruct (wins24_run n w' rs1) as [rs2 [E2 [C2 K2]]].
+  destruct (metas_list_run Ap (seq 0 n) rs2) as [rs3 [E3 F3]].
+  { intros k Hk. apply in_seq in Hk. destruct (K2 k) as [A _]; [lia|]. rewrite A. discriminate. }
+  destruct (metas_list_run Lf (seq 0 n) rs3) as [rs4 [E4 F4]].
+  { intros k Hk. apply in_seq in Hk. rewrite F3 by congruence. destruct (K2 k) as [_ A]; [lia|].
+    rewrite A. discriminate. }
+  destruct (writemeta_list_post _ _ _ _ E3) as [_ [P3 Q3]].
+  destruct (writemeta_list_post _ _ _ _ E4) as [P4a [P4 Q4]].
+  assert (Hbins : forall k, (k < n)%nat -> r_fs rs4 (PFile (Shank k Ap) FBin) = Complete /\
+                                          r_fs rs4 (PFile (Shank k Lf) FBin) = Complete).
+  { intros k Hk. rewrite !F4, !F3 by congruence. apply K2. exact Hk. }
+  (* verification *)
+  set (rs5 := if o_post o then mkR (r_fs rs4) true else rs4).
+  assert (E5 : exec (if o_post o then verify24 n None else []) rs4 = (rs5, None)).
+  { subst rs5. destruct (o_post o); [|reflexivity]. cbn.
+    rewrite all_ap_complete_intro; [reflexivity|]. intros k Hk. apply Hbins. exact Hk. }
+  assert (F5 : r_fs rs5 = r_fs rs4) by (subst rs5; destruct (o_post o); reflexivity).
+  assert (C5 : r_checked rs5 = o_post o).
+  { subst rs5. cbn in C1. destruct (o_post o); [reflexivity|]. congruence. }
+  (* compression *)
+  assert (E6 : exists rs6, exec (if o_comp o then comp24 true n else []) rs5 = (rs6, None) /\
+             r_checked rs6 = r_checked rs5 /\
+             (forall k, (k < n)%nat -> out_ok (o_comp o) (r_fs rs6) (Shank k Ap) /\
+                                       out_ok (o_comp o) (r_fs rs6) (Shank k Lf)) /\
+             (forall q, (forall k e f, q = PFile (Shank k e) f -> f = FMeta) -> r_fs rs6 q = r_fs rs5 q)).
+  { destruct (o_comp o).
+    - destruct (comp_list_run true (seq 0 n) rs5 (seq_NoDup n 0)) as [rs6 [Hx [Hc [Hko Hf]]]].
+      { intros k Hk. apply in_seq in Hk. rewrite F5. apply Hbins. lia. }
+      exists rs6. split; [exact Hx|]. split; [exact Hc|]. split.
+      + intros k Hk. apply Hko. apply in_seq. lia.
+      + intros q Hq. destruct q as [d|ow0 f0].
+        * apply Hf. intros; discriminate.
+        * destruct (fkind_eqb f0 FMeta) eqn:Ef.
+          -- apply fkind_eqb_eq in Ef. subst f0. eapply comp24_meta_frame. exact Hx.
+          -- apply Hf. intros k e f _ Heq. inversion Heq; subst.
+             rewrite (Hq k e f eq_refl) in Ef. discriminate.
+    - exists rs5. cbn. split; [reflexivity|]. split; [reflexivity|]. split; [|reflexivity].
+      intros k Hk. rewrite F5. apply Hbins. exact Hk. }
+  destruct E6 as [rs6 [E6 [C6 [K6 F6]]]].
+  (* delete_NP24 *)
+  assert (Horig : forall f, r_fs rs6 (PFile Orig f) = fs (PFile Orig f)).
+  { assert (S3 : forall e ks, forallb shank_step (flat_map (fun k => [SWriteMeta (Shank k e)]) ks) = true)
+      by (intros; apply forallb_flat_map; reflexivity).
+    intros f. rewrite F6 by (intros; discriminate). rewrite F5.
+    rewrite (shank_steps_frame_orig _ _ _ _ f (S3 Lf _) E4).
+    rewrite (shank_steps_frame_orig _ _ _ _ f (S3 Ap _) E3).
+    transitivity (r_fs rs1 (PFile Orig f)).
+    - eapply exec_frame; [exact E2|]. intros s Hs. apply shank_step_orig.
+      pose proof (body24_shape n (S w') (mkO false false false) true None) as Hsh.
+      unfold body24 in Hsh. cbn [o_post o_comp] in Hsh. rewrite !forallb_app in Hsh.
+      apply andb_true_iff in Hsh as [Hsh _]. rewrite forallb_forall in Hsh. auto.
+    - eapply (exec_frame _ (mkR fs false)); [exact E1|]. intros s Hs. apply shank_step_orig.
+      pose proof (prep24_shape true fs n) as Hsh. rewrite forallb_forall in Hsh. auto. }
+  assert (E7 : exists rs7, exec (del24 o tf) rs6 = (rs7, None) /\ r_checked rs7 = r_checked rs6 /\
+            r_fs rs7 (PFile Orig tf) = (if o_post o && o_del o then Absent else fs (PFile Orig tf)) /\
+            forall q, q <> PFile Orig tf -> r_fs rs7 q = r_fs rs6 q).
+  { unfold del24. destruct (o_del o).
+    - cbn [exec step_sem]. rewrite C6, C5. destruct (o_post o); cbn.
+      + unfold unlink. rewrite (proj2 (present_true _ _)) by (rewrite Horig; exact Hin).
+        eexists. split; [reflexivity|]. cbn. upd_simp. repeat split; auto. intros q Hq. upd_simp. reflexivity.
+      + exists rs6. rewrite Horig. split; [reflexivity|]. split; [congruence|]. split; [reflexivity | auto].
+    - exists rs6. cbn. rewrite andb_false_r, Horig. auto. }
+  destruct E7 as [rs7 [E7 [C7 [O7 F7]]]].
+  exists rs7. split.
+  { rewrite exec_app. unfold prep24. unfold prep24 in E1. rewrite exec_app, E1.
+    unfold body24, metas24. rewrite exec_app, E2. rewrite exec_app, exec_app, E3, E4.
+    rewrite exec_app, E5, E6. exact E7. }
+  split; [congruence|]. split; [|split; [exact O7|]].
+  - intros k Hk. rewrite !F7 by congruence. destruct (K6 k Hk) as [Ka Kl].
+    repeat split.
+    + rewrite F6 by (intros; discriminate). rewrite F5, F4, F3 by congruence.
+      destruct (wins24_run n w' rs1) as [rsx [Ex _]]. rewrite E2 in Ex. inversion Ex; subst rsx.
+      erewrite exec_frame; [apply D1; [apply in_seq; lia | apply andb_false_r] | exact E2 |].
+      intros s Hs. apply nodir_step_dir.
+      pose proof (rest24_nodir n (S w') (mkO false false false) true None FBin) as Hnd.
+      unfold body24 in Hnd. cbn [o_post o_comp] in Hnd. rewrite !forallb_app in Hnd.
+      apply andb_true_iff in Hnd as [Hnd _]. apply andb_true_iff in Hnd as [Hnd _].
+      rewrite forallb_forall in Hnd. auto.
+    + rewrite F6 by (intros k0 e f Heq; inversion Heq; reflexivity). rewrite F5.
+      apply P4a. apply P3. apply in_seq. lia.
+    + rewrite F6 by (intros k0 e f Heq; inversion Heq; reflexivity). rewrite F5.
+      apply P4. apply in_seq. lia.
+    + unfold out_ok in *. destruct (o_comp o); rewrite !F7 by congruence; exact Ka.
+    + unfold out_ok in *. destruct (o_comp o); rewrite !F7 by congruence; exact Kl.
+  - intros f Hf. rewrite F7 by congruence. apply Horig.
+Qed.
+
+Lemma comp_steps_meta_frame : forall ow o rs rs' e o',
+  exec (comp_steps ow o) rs = (rs', e) -> r_fs rs' (PFile o' FMeta) = r_fs rs (PFile o' FMeta).
+Proof. intros. eapply exec_frame; eauto. intros s Hs. eapply touches_comp_meta; eauto. Qed.
+
+Lemma appends21_run : forall l rs, forallb (fun s => match s with SAppend21 _ => true | _ => false end) l = true ->
+  exists rs', exec l rs = (rs', None) /\ r_checked rs' = r_checked rs /\
+    forall q, q <> PFile Lf21 FBin -> r_fs rs' q = r_fs rs q.
+Proof.
+  induction l as [|s l IH]; intros rs H; [exists rs; auto|].
+  cbn in H. apply andb_true_iff in H as [Hs Hl]. destruct s; try discriminate.
+  cbn [exec step_sem].
+  destruct (IH (mkR (upd (r_fs rs) (PFile Lf21 FBin) (if last then Complete else Partial)) (r_checked rs)) Hl)
+    as [rs' [Hx [Hc Hf]]].
+  exists rs'. split; [exact Hx|]. split; [exact Hc|]. intros q Hq. rewrite Hf by exact Hq. cbn. upd_simp. reflexivity.
+Qed.
+
+Lemma forced21_exec : forall w' o tf fs,
+  (tf = FBin -> fs (PFile Orig FBin) = Complete) ->
+  exists rs', exec (plan21 (S w') o true tf fs) (mkR fs false) = (rs', None) /\
+    r_fs rs' (PFile Lf21 FMeta) = Complete /\ out_ok (o_comp o) (r_fs rs') Lf21 /\
+    (if o_comp o && fkind_eqb tf FBin then out_ok true (r_fs rs') Orig
+     else forall f, r_fs rs' (PFile Orig f) = fs (PFile Orig f)) /\
+    r_fs rs' (PFile Orig FMeta) = fs (PFile Orig FMeta).
+Proof.
+  intros w' o tf fs Htf. unfold plan21, already21. rewrite andb_false_r.
+  (* head: truncate, windows, metadata *)
+  assert (H1 : exists rs1, exec ([STrunc (PFile Lf21 FBin)] ++ wins21 (S w') ++ [SWriteMeta Lf21]) (mkR fs false)
+                 = (rs1, None) /\ r_fs rs1 (PFile Lf21 FBin) = Complete /\
+                 r_fs rs1 (PFile Lf21 FMeta) = Complete /\
+                 forall f, r_fs rs1 (PFile Orig f) = fs (PFile Orig f)).
+  { cbn [app exec step_sem dir_ok r_fs r_checked]. unfold wins21.
+    destruct (appends21_run (map (fun _ : nat => SAppend21 false) (seq 0 w'))
+                (mkR (upd fs (PFile Lf21 FBin) Partial) false)) as [rsa [Ha [_ Fa]]].
+    { apply forallb_forall. intros s Hs. apply in_map_iff in Hs as [x [<- _]]. reflexivity. }
+    rewrite <- app_assoc, exec_app, Ha. cbn [app exec step_sem r_fs r_checked].
+    unfold present. upd_simp. cbn [fstate_eqb negb].
+    eexists. split; [reflexivity|]. cbn [r_fs]. upd_simp. split; [reflexivity|]. split; [reflexivity|].
+    intros f. upd_simp. rewrite Fa by congruence. cbn. upd_simp. reflexivity. }
+  destruct H1 as [rs1 [E1 [B1 [M1 O1]]]].
+  rewrite exec_app, E1.
+  destruct (o_comp o); cbn [andb out_ok].
+  2:{ exists rs1. split; [reflexivity|]. split; [exact M1|]. split; [exact B1|]. split; [exact O1 | apply O1]. }
+  destruct (comp_steps_run true Lf21) with (rs := rs1) as [rsx _]; [exact B1|]. clear rsx.
+  unfold origcomp21. destruct tf; cbn [fkind_eqb app];
+    try (destruct (comp_steps_run true Lf21 rs1 B1) as [rs2 [E2 [_ [A1 [A2 [A3 [A4 F2]]]]]]];
+         exists rs2; split; [exact E2|];
+         split; [rewrite (comp_steps_meta_frame _ _ _ _ _ Lf21 E2); exact M1|];
+         split; [auto|]; split; [intros f; rewrite F2 by congruence; apply O1
+                               | rewrite F2 by congruence; apply O1]).
+  change (SCompBegin Orig :: SCompEnd Orig :: SRenameCh Orig :: SRename Orig :: SUnlink (PFile Orig FBin) false
+            :: comp_steps true Lf21) with (comp_core Orig ++ comp_steps true Lf21).
+  destruct (comp_core_run Orig rs1) as [rs2 [E2 [_ [A1 [A2 [A3 [A4 F2]]]]]]].
+  { rewrite O1. apply Htf. reflexivity. }
+  destruct (comp_steps_run true Lf21 rs2) as [rs3 [E3 [_ [L1 [L2 [L3 [L4 F3]]]]]]].
+  { rewrite F2 by congruence. exact B1. }
+  exists rs3. rewrite exec_app, E2. split; [exact E3|].
+  split; [rewrite (comp_steps_meta_frame _ _ _ _ _ Lf21 E3);
+          rewrite (comp_steps_meta_frame false Orig _ _ _ Lf21 E2); exact M1|]. split; [auto|].
+  split; [|rewrite F3 by congruence].
+  - repeat split; rewrite F3 by congruence; assumption.
+  - transitivity (r_fs rs1 (PFile Orig FMeta)); [|apply O1].
+    eapply exec_frame; [exact E2|]. intros s Hs. unfold comp_core in Hs. cbn in Hs.
+    repeat (destruct Hs as [<-|Hs]; [reflexivity|]). destruct Hs.
+Qed.
+
+(* top level *)
+Lemma go_full : forall plan fs st al rs',
+  exec plan (mkR fs false) = (rs', None) ->
+  out_outcome (go plan None fs st al) = Status st /\ out_fs (go plan None fs st al) = r_fs rs' /\
+  out_checked (go plan None fs st al) = r_checked rs'.
+Proof.
+  intros plan fs st al rs' H. unfold go. rewrite H. cbv beta iota zeta. rewrite Nat.ltb_irrefl.
+  cbn [out_outcome out_fs out_checked]. auto.
+Qed.
+
+Lemma forced24 : forall n w' fs t o,
+  (t = TBin \/ t = TCbin) -> input_state NP24 n fs t = Present ->
+  let out := run_once NP24 n (S w') fs (mkRun t o true None None) in
+  let tf := target_form t in
+  out_outcome out = Status 1 /\ out_checked out = o_post o /\ final24_ok n o (out_fs out) /\
+  out_fs out (PFile Orig tf) = (if o_post o && o_del o then Absent else fs (PFile Orig tf)) /\
+  forall f, f <> tf -> out_fs out (PFile Orig f) = fs (PFile Orig f).
+Proof.
+  intros n w' fs t o Ht Hin. cbv zeta.
+  destruct (input_present_orig _ _ _ _ Hin) as [_ [HB HC]].
+  assert (Hp : fs (PFile Orig (target_form t)) <> Absent).
+  { destruct Ht as [-> | ->]; cbn; [rewrite HB by reflexivity | destruct HC as [-> _]; [reflexivity|]]; discriminate. }
+  destruct (forced24_exec n w' o (target_form t) fs Hp) as [rs' [Hx [Hc [Hf [Ho Hr]]]]].
+  unfold run_once. cbn [r_target r_opts r_ow r_crash r_corrupt]. rewrite Hin.
+  rewrite already24_true_ow.
+  destruct (go_full _ fs 1%Z 0%Z rs' Hx) as [G1 [G2 G3]].
+  destruct Ht as [-> | ->]; cbn [target_form] in *; rewrite G1, G2, G3; auto.
+Qed.
+
+Lemma forced21 : forall n w' fs t o,
+  (t = TBin \/ t = TCbin) -> input_state NP21 n fs t = Present ->
+  let out := run_once NP21 n (S w') fs (mkRun t o true None None) in
+  out_outcome out = Status 1 /\
+  out_fs out (PFile Lf21 FMeta) = Complete /\ out_ok (o_comp o) (out_fs out) Lf21 /\
+  (if o_comp o && fkind_eqb (target_form t) FBin then out_ok true (out_fs out) Orig
+   else forall f, out_fs out (PFile Orig f) = fs (PFile Orig f)) /\
+  out_fs out (PFile Orig FMeta) = fs (PFile Orig FMeta).
+Proof.
+  intros n w' fs t o Ht Hin. cbv zeta.
+  destruct (input_present_orig _ _ _ _ Hin) as [_ [HB HC]].
+  assert (Htf : target_form t = FBin -> fs (PFile Orig FBin) = Complete).
+  { destruct Ht as [-> | ->]; cbn; [auto | discriminate]. }
+  destruct (forced21_exec w' o (target_form t) fs Htf) as [rs' [Hx [Hm [Hl [Ho Hom]]]]].
+  unfold run_once. cbn [r_target r_opts r_ow r_crash r_corrupt]. rewrite Hin.
+  assert (Hal : already21 true fs = false) by (unfold already21; apply andb_false_r).
+  rewrite Hal.
+  destruct (go_full _ fs 1%Z 0%Z rs' Hx) as [G1 [G2 G3]].
+  destruct Ht as [-> | ->]; cbn [target_form] in *; rewrite G1, G2; auto.
 Qed.
